@@ -172,7 +172,7 @@ def check_resolver_shape(res: Result, repo):
     """reading_by_candle: dotted -> nested field; else candle attribute if not None; else exact key in indicators, then sub_indicators"""
     rule = "R-CONTRACT"
     rbc = repo.func("hexital.utils.candles", "reading_by_candle")
-    mod = repo.module("hexital.utils.candles")
+    mod = rbc.module  # the resolver's home (it may have been moved and re-exported)
     resolvers = [rbc] + ([mod.functions["_nested_indicator"]] if "_nested_indicator" in mod.functions else [])
 
     def closure_nodes(fn):
@@ -238,7 +238,7 @@ def run(repo, tier) -> Result:
     for mod, cls, nm in ACCESSORS:
         m = repo.method(mod, cls, nm)
         reach = cg.reachable([cg.key(m)], stop=lambda f: f.name in RESOLVERS or f.name in ("calculate", "append", "purge"))
-        funcs = [cg.funcs[k] for k in reach if cg.funcs[k].module.name in allowed_scope]
+        funcs = [cg.funcs[k] for k in reach if cg.funcs[k].module.name in allowed_scope or cg.funcs[k].module.name.startswith("hexital.utils.")]
         hits_resolver = any(f.name == "reading_by_candle" for f in funcs)
         bad = []
         for f in funcs:
@@ -265,7 +265,7 @@ def run(repo, tier) -> Result:
             res.ok("R-EFFECT", {"accessor": f"{cls}.{nm}", "effect_set": []})
     # R-TRUTH on accessors and resolvers
     scope: List[FuncInfo] = [repo.method(m, c, n) for m, c, n in ACCESSORS]
-    for fn in [x for x in ("reading_by_index", "reading_by_candle", "_nested_indicator", "reading_count", "reading_period", "candles_sum") if not (x.startswith("_") and x not in repo.module("hexital.utils.candles").functions)]:
+    for fn in [x for x in ("reading_by_index", "reading_by_candle", "_nested_indicator", "reading_count", "reading_period", "candles_sum") if not (x.startswith("_") and not isinstance(repo.resolve(repo.module("hexital.utils.candles"), x), FuncInfo))]:
         scope.append(repo.func("hexital.utils.candles", fn))
     for f in scope:
         sites = truthiness_sites(f.node)
